@@ -231,6 +231,9 @@ class CodeBuilder:
             field_type = clean_id(field_type)
             if resolved_type_params:
                 typ = substitute_type_params(typ, resolved_type_params)
+            if is_annotated(typ):
+                # the name denotes the annotated type itself
+                typ = get_args(typ)[0]
             self.ensure_object_imported(typ, field_type)
 
         return field_type
